@@ -383,6 +383,7 @@ func (s *session) run(o runOpts) int {
 		it.mstate.observe = nil
 		it.mstate.lastNow = nil
 		it.mstate.universe = nil
+		it.mstate.fakeDigests = 0
 		it.curFrame = nil
 		it.vectorPos = 0
 		// merge decisions must be a function of the path alone (re-execution replays them)
